@@ -85,7 +85,10 @@ func (e *Eng) ufApply(name string, args []Val, resT types.Type, c *ctx) Val {
 	terms, sorts := e.flatArgs(c.st, args)
 	mk := func(suffix, rsort string) string {
 		full := "|" + name + suffix + mangle(sorts) + "|"
-		e.declOnce(fmt.Sprintf("(declare-fun %s (%s) %s)", full, strings.Join(sorts, " "), rsort))
+		if _, inSpec := e.specSigs()[strings.Trim(full, "|")]; !inSpec {
+			// spec files may declare (and constrain) the same symbol themselves
+			e.declOnce(fmt.Sprintf("(declare-fun %s (%s) %s)", full, strings.Join(sorts, " "), rsort))
+		}
 		if len(terms) == 0 {
 			return full
 		}
@@ -311,6 +314,11 @@ func (e *Eng) dispatch(fn *types.Func, name string, recv *Val, args, all []Val, 
 			return e.inlineBody(fi.Decl.Type, fi.Decl.Body, fi, recv, args, resT, c, x, name)
 		}
 	}
+	// 2a. exact semantics of a few standard-library predicates on literal arguments
+	if v, ok := e.stdShortcut(name, all, c); ok {
+		e.noteAssumed("definition " + name + " (expanded for a literal argument)")
+		return v
+	}
 	// 2. assumed contracts
 	if con := e.u.cs.Externs[name]; con != nil {
 		e.noteAssumed("extern contract " + name)
@@ -393,18 +401,20 @@ func (e *Eng) autoInline(fi *FuncInfo) bool {
 func (e *Eng) inlineBody(ft *ast.FuncType, body *ast.BlockStmt, fi *FuncInfo, recv *Val, args []Val, resT types.Type, c *ctx, at ast.Node, name string) Val {
 	savedInfo, savedPkg, savedRet := e.info, e.pkg, e.retVars
 	savedLoop, savedSite := e.loopOrd, e.siteOrd
-	savedCon := e.con
+	savedCon, savedRes := e.con, e.curRes
+	savedOwned := e.owned
+	defer func() { e.owned = savedOwned }()
 	if fi != nil {
 		e.info, e.pkg = fi.Pkg.TypesInfo, fi.Pkg
 		e.con = fi.Con
 		e.numberSites(fi.Decl.Body)
-	} else {
-		e.con = nil
+		e.owned = e.ownedSlices(fi.Decl.Body)
 	}
+	e.curRes = resTypesOf(resT)
 	e.depth++
 	defer func() {
 		e.depth--
-		e.info, e.pkg, e.retVars, e.loopOrd, e.siteOrd, e.con = savedInfo, savedPkg, savedRet, savedLoop, savedSite, savedCon
+		e.info, e.pkg, e.retVars, e.loopOrd, e.siteOrd, e.con, e.curRes = savedInfo, savedPkg, savedRet, savedLoop, savedSite, savedCon, savedRes
 	}()
 	st := c.st.clone()
 	st.defers = nil
@@ -575,6 +585,14 @@ func (e *Eng) joinOuts(outs []Out, nBase int, resT types.Type) (*State, Val) {
 		accRet = iteVal(g, retOf(o), accRet)
 	}
 	acc.pc = append(acc.pc, "(or "+strings.Join(guards, " ")+")")
+	for _, k := range sortedObjs(acc.vars) {
+		acc.vars[k] = e.nameTerm(acc, acc.vars[k], k.Name())
+	}
+	for _, k := range sortedKeys(acc.ghost) {
+		acc.ghost[k] = e.nameTerm(acc, acc.ghost[k], "g."+k)
+	}
+	e.nameHeaps(acc)
+	accRet = e.nameTerm(acc, accRet, "ret")
 	return acc, accRet
 }
 
@@ -711,7 +729,7 @@ func (e *Eng) applyContract(con *Contract, fi *FuncInfo, name string, recv *Val,
 	}
 	post := e.calleePkgCtx(con, fi, c, env, pre)
 	for _, en := range con.Ensures {
-		c.st.assume(e.specBool(en.Expr, post))
+		e.assumeGen(c, e.specBool(en.Expr, post))
 	}
 	return res
 }
